@@ -5,7 +5,7 @@ PID = "C05"
 
 def the_oracle(case, k, block, mu): return oracle_c05(case, k, block)
 
-def run(tier, replay=None, pid=PID, theorems=THEOREMS, oracle=the_oracle, ks=(1, 2, 3, 5), need_mu=False, module="Parmcb.Props.C05b"):
+def run(tier, replay=None, pid=PID, theorems=THEOREMS, oracle=the_oracle, ks=(1, 2, 3, 5, 9, 40), need_mu=False, module="Parmcb.Props.C05b"):
     res = Result(pid, tier, "proof")
     res.assumptions = ["Model/Spanner.lean (approxRun) + Model/DePina.lean; the exact phase on the spanner and the shortest spanner paths are open choices validated per run (trace validation)",
                        "descriptors are dereferenced through the caller's maps after the call has returned (ASan build in the thorough tier)"]
